@@ -52,7 +52,7 @@ def build_cases(tier, seed):
                   + "Prof(Rank(3),2,{1,2}), three-type profiles over Bullet(3)+Len2(3) with weights {1,2} for the multi-round rules (+ a slice of Prof(Weak(3),2,{1,2}) for tie-tolerant rules and of the "
                   "score profiles for score rules), " + ("one configuration per code path" if tier == "quick" else "all configurations of the C01 menu")
                   + ", restricted to constructions that consumed no random choice; events = 7 queries x r in "
-                  + ("{-L-2,-L-1,-1,0,1,L,L+1}" if tier == "quick" else "{-L-2..L+1}") + " + len + str",
+                  + ("{-L-2,-L-1,-L,-2,-1,0,1,L-1,L,L+1}" if tier == "quick" else "{-L-2..L+1}") + " + len + str",
         "assumptions": ["state = canonical serialisation of the whole object __dict__ (nothing dropped)",
                         "elections whose construction drew a random number are outside the property"],
     }
@@ -270,7 +270,7 @@ def run_case(i, tier):
         L = len(e.election_states) - 1
         rs = range(-L - 2, L + 2)
         if tier == "quick":
-            rs = sorted({-L - 2, -L - 1, -1, 0, 1, L, L + 1} & set(range(-L - 2, L + 2)))
+            rs = sorted({-L - 2, -L - 1, -L, -2, -1, 0, 1, L - 1, L, L + 1} & set(range(-L - 2, L + 2)))
         events = [(q, r) for q in QUERIES for r in rs] + [("len", None), ("str", None)]
         # ---- explicit-state search -------------------------------------------------------------
         s0 = obj_state(e)
